@@ -183,6 +183,10 @@ class Clock(object):
 
 def ts(epoch, spelling='Z'):
     """render epoch seconds as xs:dateTime in one of the spellings of C04"""
+    if spelling in ('offPlus', 'offMinus'):
+        # the same instant written as local time with a numeric offset: local = UTC + offset
+        off, txt = (7200, '+02:00') if spelling == 'offPlus' else (-18000, '-05:00')
+        return _time.strftime('%Y-%m-%dT%H:%M:%S', _time.gmtime(epoch + off)) + txt
     base = _time.strftime('%Y-%m-%dT%H:%M:%S', _time.gmtime(epoch))
     return {'Z': base + 'Z', 'fracZ': base + '.250Z', 'noZ': base, 'frac': base + '.250',
             # a fraction above one half: the instant lies within the second that starts at `epoch` (rounding would move it)
